@@ -186,3 +186,208 @@ Proof.
   - repeat constructor. exists [[32]; [32]; [97]; [98]]%N. split; [reflexivity|]. repeat constructor; discriminate.
   - vm_compute. split; [discriminate|]. left. reflexivity.
 Qed.
+
+(* ====================================================================================================
+   Declarative characterisations of the scanners (w W b B e E, h l, %, { }) and fuel sufficiency
+   (MotWordProps.v).  These replace the weak C07_scanners_partial above for the motions they name.
+
+   Vocabulary.  The buffer is read as ONE sequence of characters, flat b = concat b (every line with
+   its terminator); a position (r, o) of the buffer (vpos b r o: row r exists, 0 <= o < its length)
+   has the index idx b r o = (characters of the rows before r) + o in it, fchr b i is the character
+   at index i, nchars b the number of characters.  uc_kind gives the class of a character: 0 blank,
+   1 word (alphanumeric, _, non-ASCII), 2 punctuation.
+     word_start F big k : k is the first character of a word: not blank, and k = 0 or the character
+                          before it is blank (W B E) / of a different class (w b e)
+     word_end F L big k : k is the last character of a word (its successor exists and is blank / of a
+                          different class)
+     w_stop / e_stop / b_stop : a word start (w), word end (e), word start (b) OR the "second line
+                          break" stop of mot.c: the terminator of a line of blanks only (e.g. an empty
+                          line) that lies entirely beyond the cursor (for b: its first character)
+     fwd_step stop L i j s : j is the FIRST index after i with `stop i j` (s = false), or there is no
+                          such index and j = L - 1, the end of the buffer (s = true: the C function
+                          returned 1); bwd_step: the same towards index 0
+     chain step n i j   : n such scans in a row, stopping early after one that hit the buffer end
+   ==================================================================================================== *)
+From Coq Require Import Bool.
+From NV Require Import MotWordProps.
+
+(* the flat view is faithful: lbuf_chr reads the flat sequence, lbuf_next moves the index by exactly
+   one (dir = +1 / -1) and fails exactly at the two ends of the buffer *)
+Theorem C07_flat_char : forall b r o, vpos b r o -> lchr b r o = fchr b (idx b r o).
+Proof. exact lchr_idx. Qed.
+Print Assumptions C07_flat_char.
+
+Theorem C07_flat_step : forall b dir r o, buf_wf b -> dir = 1 \/ dir = -1 -> vpos b r o ->
+  exists r' o', lbuf_next b dir r o = (fst (fnext (nchars b) dir (idx b r o)), r', o') /\ vpos b r' o' /\
+                idx b r' o' = snd (fnext (nchars b) dir (idx b r o)).
+Proof. exact flat_step. Qed.
+Print Assumptions C07_flat_step.
+
+(* w / W (count 1): lbuf_wordbeg never runs out of fuel; it lands on the FIRST index after the cursor
+   that is a word start or a blank-line stop (strictly after the cursor, none in between:
+   minimality); if there is none it reports failure and lands on the last character of the buffer *)
+Theorem C07_w_W_first_stop : forall b big r o, buf_wf b -> vpos b r o ->
+  exists s r' o', lbuf_wordbeg (mfuel b) b big 1 r o = Some (s, r', o') /\ vpos b r' o' /\
+    fwd_step (w_stop (fchr b) big) (nchars b) (idx b r o) (idx b r' o') s.
+Proof. exact w_first_stop. Qed.
+Print Assumptions C07_w_W_first_stop.
+
+(* e / E (count 1): the first word end / blank-line stop strictly after the cursor *)
+Theorem C07_e_E_first_stop : forall b big r o, buf_wf b -> vpos b r o ->
+  exists s r' o', lbuf_wordend (mfuel b) b big 1 r o = Some (s, r', o') /\ vpos b r' o' /\
+    fwd_step (e_stop (fchr b) (nchars b) big) (nchars b) (idx b r o) (idx b r' o') s.
+Proof. exact e_first_stop. Qed.
+Print Assumptions C07_e_E_first_stop.
+
+(* b / B (count 1): the nearest word start / blank-line stop strictly before the cursor; if there is
+   none, failure is reported and the landing index is 0 *)
+Theorem C07_b_B_first_stop : forall b big r o, buf_wf b -> vpos b r o ->
+  exists s r' o', lbuf_wordend (mfuel b) b big (-1) r o = Some (s, r', o') /\ vpos b r' o' /\
+    bwd_step (b_stop (fchr b) big) (idx b r o) (idx b r' o') s.
+Proof. exact b_first_stop. Qed.
+Print Assumptions C07_b_B_first_stop.
+
+(* w W e E b B with any count, at the vi_motion level: never MvFuel, never MvFail; the landing
+   position is reached by count scans in a row (fewer when one of them hits the buffer end) *)
+Theorem C07_word_motions_count : forall b rows top cl cc pc has cnt k row off,
+  buf_wf b -> vpos b row off -> word_key k = true ->
+  exists r' o', vi_motion b rows top cl cc pc has cnt k row off = MvOk r' o' cl cc pc /\ vpos b r' o' /\
+                word_chain b k (Z.to_nat cnt) (idx b row off) (idx b r' o').
+Proof. exact word_motion_count. Qed.
+Print Assumptions C07_word_motions_count.
+
+(* a valid cursor of a non-empty buffer is a position *)
+Theorem C07_cursor_is_position : forall b r o, b <> [] -> cursor_ok b r o -> vpos b r o.
+Proof. exact cursor_ok_vpos. Qed.
+Print Assumptions C07_cursor_is_position.
+
+(* reading the stops over a well-formed buffer: a blank character is a line break exactly when it is
+   the terminator of its line; the last character of the buffer is blank *)
+Theorem C07_line_break_is_terminator : forall b r o l, buf_wf b -> getl b r = Some l -> 0 <= o < slen l ->
+  uc_isspace (lchr b r o) = true -> (is_nl (lchr b r o) = true <-> o = slen l - 1).
+Proof. exact nl_is_terminator. Qed.
+Print Assumptions C07_line_break_is_terminator.
+
+Theorem C07_last_character_blank : forall b, buf_wf b -> b <> [] -> uc_isspace (fchr b (nchars b - 1)) = true.
+Proof. exact wf_last_blank. Qed.
+Print Assumptions C07_last_character_blank.
+
+(* % : lbuf_pair never runs out of fuel.  It starts from the first of ( ) [ ] { } at or after the
+   cursor on its line (pair_first) and walks forward from an opening, backward from a closing
+   bracket (pair_dir, pair_other: C07_pair_table); pdepth .. t is the nesting depth of THIS kind
+   of bracket after t steps (1 at the start, +1 for a bracket like the starting one, -1 for its
+   partner).  Success: the landing character is the partner bracket, at the first step m where
+   the depth returns to 0 -- the depth is >= 1 at all steps in between (balanced nesting).
+   Failure (cursor stays, C07_fail_in_place): no bracket before the end of the line, or the depth
+   never returns to 0 before the end of the buffer *)
+Theorem C07_pair_match : forall b r o, buf_wf b -> vpos b r o ->
+  match lbuf_pair (mfuel b) b r o with
+  | None => False
+  | Some None =>
+      (exists o1, o <= o1 /\ b0 (lchr b r o1) = 0%N /\ forall k, o <= k < o1 -> index_of (b0 (lchr b r k)) pairs 0 = None)
+      \/ (exists o1 c pidx, pair_first b r o o1 c pidx /\
+            forall t, (0 < t)%nat -> 0 <= idx b r o1 + pair_dir pidx * Z.of_nat t < nchars b ->
+                      1 <= pdepth (fchr b) c (pair_other pidx) (pair_dir pidx) (idx b r o1) t)
+  | Some (Some (r', o')) =>
+      exists o1 c pidx, pair_first b r o o1 c pidx /\ vpos b r' o' /\
+        exists m, (0 < m)%nat /\ idx b r' o' = idx b r o1 + pair_dir pidx * Z.of_nat m /\
+          b0 (lchr b r' o') = pair_other pidx /\
+          pdepth (fchr b) c (pair_other pidx) (pair_dir pidx) (idx b r o1) m = 0 /\
+          forall t, (0 < t < m)%nat -> 1 <= pdepth (fchr b) c (pair_other pidx) (pair_dir pidx) (idx b r o1) t
+  end.
+Proof. exact pair_match. Qed.
+Print Assumptions C07_pair_match.
+
+Theorem C07_pair_table : map (fun i => (nth i pairs 0%N, pair_dir i, pair_other i)) (seq 0 6) =
+  [(40%N, 1, 41%N); (41%N, -1, 40%N); (91%N, 1, 93%N); (93%N, -1, 91%N); (123%N, 1, 125%N); (125%N, -1, 123%N)].
+Proof. exact pair_table. Qed.
+Print Assumptions C07_pair_table.
+
+Theorem C07_pct_motion : forall b rows top cl cc pc cnt row off,
+  vi_motion b rows top cl cc pc false cnt Kpct row off =
+  match lbuf_pair (mfuel b) b row off with
+  | None => MvFuel
+  | Some None => MvFail cl cc
+  | Some (Some (r, o)) => MvOk r o cl cc pc
+  end.
+Proof. exact pct_motion_spec. Qed.
+Print Assumptions C07_pct_motion.
+
+(* h / l : on the column model of a left-to-right line every character occupies at least one cell,
+   so the character displayed immediately left / right is the neighbouring character of the line:
+   one step moves to offset o - 1 / o + 1, and fails (cursor stays) at the start of the line, at
+   the end of the line and before the terminator *)
+Theorem C07_h_l_step : forall b dir r o l, dir = 1 \/ dir = -1 -> getl b r = Some l -> 0 <= o < slen l ->
+  vi_nextcol b dir (r, o) =
+  Some (if (0 <=? o + dir) && (o + dir <? slen l) && negb (N.eqb (b0 (chr_at l (o + dir))) 10)
+        then (false, (r, o + dir)) else (true, (r, o))).
+Proof. exact nextcol_spec. Qed.
+Print Assumptions C07_h_l_step.
+
+Theorem C07_cell_width_positive : forall c pos, 0 <= pos -> 1 <= ren_cwid c pos.
+Proof. exact cwid_pos. Qed.
+Print Assumptions C07_cell_width_positive.
+
+(* h l with a count over a well-formed buffer: count characters left, not beyond the first one;
+   count characters right, not beyond the last character before the terminator; never a failure *)
+Theorem C07_h_l_count : forall b rows top cl cc pc has cnt row off l, buf_wf b -> getl b row = Some l -> 0 <= off < slen l ->
+  vi_motion b rows top cl cc pc has cnt Kh row off = MvOk row (Z.max 0 (off - Z.max 0 cnt)) cl cc pc /\
+  vi_motion b rows top cl cc pc has cnt Kl row off = MvOk row (Z.max off (Z.min (off + Z.max 0 cnt) (slen l - 2))) cl cc pc.
+Proof. exact hl_motion_spec. Qed.
+Print Assumptions C07_h_l_count.
+
+(* } (one step): rows r .. r1-1 are the blank lines under the cursor, rows r1 .. r2-1 the paragraph
+   (no blank line), and the landing row is the blank line r2 that follows it -- the nearest blank
+   line below that is not part of the cursor's own blank run -- or the last line of the buffer;
+   offset 0.  A blank line is a line that is exactly its terminator (C07_blank_line) *)
+Theorem C07_paragraph_forward : forall b r, 0 <= r < blen b ->
+  exists r1 r2, lbuf_paragraphbeg b 1 r = (Z.min r2 (blen b - 1), 0) /\ r <= r1 <= r2 /\ r2 <= blen b /\
+    (forall k, r <= k < r1 -> is_blank_line b k = Some true) /\
+    (forall k, r1 <= k < r2 -> is_blank_line b k = Some false) /\
+    (r2 < blen b -> is_blank_line b r2 = Some true).
+Proof. exact paragraph_fwd. Qed.
+Print Assumptions C07_paragraph_forward.
+
+(* { (one step): the same towards the start; r2 = -1: no blank line above, lands on row 0 *)
+Theorem C07_paragraph_backward : forall b r, 0 <= r < blen b ->
+  exists r1 r2, lbuf_paragraphbeg b (-1) r = (Z.max 0 r2, 0) /\ r2 <= r1 <= r /\ -1 <= r2 /\
+    (forall k, r1 < k <= r -> is_blank_line b k = Some true) /\
+    (forall k, r2 < k <= r1 -> is_blank_line b k = Some false) /\
+    (0 <= r2 -> is_blank_line b r2 = Some true).
+Proof. exact paragraph_bwd. Qed.
+Print Assumptions C07_paragraph_backward.
+
+Theorem C07_blank_line : forall b r, is_blank_line b r = Some true <-> getl b r = Some [[10%N]].
+Proof. exact is_blank_line_true. Qed.
+Print Assumptions C07_blank_line.
+
+(* { } with a count: the one-step function iterated count times (never a failure) *)
+Theorem C07_paragraph_count : forall b rows top cl cc pc has cnt row off (fwd : bool),
+  vi_motion b rows top cl cc pc has cnt (if fwd then Krbrace else Klbrace) row off =
+  let p := Nat.iter (Z.to_nat cnt) (fun p => lbuf_paragraphbeg b (if fwd then 1 else -1) (fst p)) (row, off) in
+  MvOk (fst p) (snd p) cl cc pc.
+Proof. exact para_motion_spec. Qed.
+Print Assumptions C07_paragraph_count.
+
+(* fuel sufficiency: with the fuel mfuel b = 2 + characters + lines no scanner ever returns the
+   out-of-fuel result from a position of the buffer, so NO program of motions runs out of fuel:
+   the `= Some ...` hypotheses of the theorems above are always satisfied *)
+Theorem C07_motion_never_out_of_fuel : forall b rows top cl cc pc has cnt k row off, buf_wf b -> vpos b row off ->
+  vi_motion b rows top cl cc pc has cnt k row off <> MvFuel.
+Proof. exact vi_motion_total_wf. Qed.
+Print Assumptions C07_motion_never_out_of_fuel.
+
+Theorem C07_fuel_suffices : forall b rows cs, buf_wf b -> run_prog b rows cs <> None.
+Proof. exact run_prog_total. Qed.
+Print Assumptions C07_fuel_suffices.
+
+(* non-vacuity of the new hypotheses and of the success branches (s = false), on
+   "ab  c.\n \n\n(x)\n": w, e from the first character; w from "." stops on the terminator of the
+   blank-only line; b from "(" stops on the empty line; % from "("; W from "x" hits the buffer end *)
+Example C07_word_nonvacuous :
+  let b := buf_of_bytes [97; 98; 32; 32; 99; 46; 10; 32; 10; 10; 40; 120; 41; 10]%N in
+  buf_wf b /\ vpos b 0 0 /\
+  lbuf_wordbeg (mfuel b) b false 1 0 0 = Some (false, 0, 4) /\ lbuf_wordend (mfuel b) b false 1 0 0 = Some (false, 0, 1) /\
+  lbuf_wordbeg (mfuel b) b false 1 0 5 = Some (false, 1, 1) /\ lbuf_wordend (mfuel b) b false (-1) 3 0 = Some (false, 2, 0) /\
+  lbuf_pair (mfuel b) b 3 0 = Some (Some (3, 2)) /\ lbuf_wordbeg (mfuel b) b true 1 3 1 = Some (true, 3, 3).
+Proof. exact word_nonvacuous. Qed.
